@@ -189,6 +189,20 @@ def gen_config(rng, opts=None):
              'resources': route_res, 'endpoint': endpoint, 'render': render,
              'methods': ['GET'] if rng.chance(0.5) else None}
     cfg = {'levels': levels, 'route': route, 'beh': {}, 'build_via_add': rng.chance(0.3)}
+    # two instances of one *non-unique* middleware type on two different levels: both stay, each with its own provides
+    by_where = {}
+    for m in mws:
+        by_where.setdefault(m.get('_w'), []).append(m)
+    all_lists = [l['mws'] for l in levels] + [route['mws']]
+    filled = [lst for lst in all_lists if lst]
+    if opts.get('nonunique', True) and len(filled) >= 2 and rng.chance(0.2):
+        la, lb = rng.sample(filled, 2)
+        ma, mb = rng.pick(la), rng.pick(lb)
+        mb['type'] = ma['type']
+        ma['unique'] = mb['unique'] = False
+        cfg['nonunique_pair'] = [ma['mid'], mb['mid']]
+    if render is not None and rng.chance(0.25):
+        route['render_via_factory'] = True      # render argument is a template name, the function comes from a render factory
     used = set(NAMES) & (set(bindings) | set(route_res) | set(x for l in level_res for x in l) |
                          set(n for m in mws for a in ('provides', 'endpoint_provides', 'render_provides') for n in m[a]))
     mentioned = set(p[0] for f in [endpoint, render] + [m.get(ph) for m in mws for ph in ('request', 'endpoint', 'render')] if f
